@@ -54,6 +54,11 @@ def parseVal : Nat → List String → Option (Val × List String)
       let n ← (String.ofList d).toNat?
       let (xs, rest) ← parseVals fuel n rest
       some (.list xs, rest)
+    -- a list the harness builds as a slice of a longer list: the same value
+    | 'l' :: d => do
+      let n ← (String.ofList d).toNat?
+      let (xs, rest) ← parseVals fuel n rest
+      some (.list xs, rest)
     | 'M' :: d => do
       let n ← (String.ofList d).toNat?
       let (xs, rest) ← parseVals fuel (2 * n) rest
